@@ -864,7 +864,7 @@ def run_model(cases, workdir, tag, timeout=600):
            'Set Printing Depth 100000000.']
     for i, (name, np_, hint, fmt, lo, hi, term) in enumerate(cases):
         src.append('Definition ops_%d : list op :=\n  %s.' % (i, term))
-        src.append('Eval vm_compute in (%d, run (init_world %d %s %d %d %d) ops_%d).' % (i, np_, HINT[hint], fmt, lo, hi, i))
+        src.append('Eval vm_compute in (%d, run (init_world %d %s %d %d) ops_%d).' % (i, np_, HINT[hint], fmt, lo, i))
     d = os.path.join(workdir, tag)
     os.makedirs(d, exist_ok=True)
     p = os.path.join(d, 'cases.v')
